@@ -50,6 +50,8 @@ def rand_prog(rng: random.Random, c: dict, level: int, nb: int, own_bus: int, sy
                 opts = {}
                 if c.get('p_age') and rng.random() < c['p_age']:
                     opts['age'] = rng.choice([0.5, 5.0, 60.0])
+                if rng.random() < c.get('p_rtype', 0.1):
+                    opts['rtype'] = rng.choice(['str', 'int', 'list', 'dict'])  # the event declares a result type
                 if rng.random() < c['p_explicit_parent']:
                     opts['parent'] = '00000000-0000-7000-8000-%012x' % rng.randrange(1 << 40)
                 prog.append(['disp', rng.randint(level + 1, c['levels'] - 1), tb, mode, pre, opts])
@@ -66,6 +68,9 @@ def rand_prog(rng: random.Random, c: dict, level: int, nb: int, own_bus: int, sy
             if not sync and not wild and level < c['levels'] - 1:
                 sub = [['sleep', rng.choice(DELAYS)], ['disp', rng.randint(level + 1, c['levels'] - 1), rng.randrange(nb), rng.choice(['fire', 'await']), None, {}]]
                 prog.append(['spawn', sub])
+    if rng.random() < c.get('p_ret', 0.15) and not any(op[0] in ('raise', 'retexc', 'ret') for op in prog):
+        # handlers return lists / dicts / numbers (the accessors flatten and merge them), not only strings
+        prog.append(['ret', rng.choice([[1, 2], [3], [], {'a': 1}, {'b': 2, 'c': 3}, {}, 0, 7, 'text', None, [[1], [2]], {'a': {'n': 1}}])])
     return prog
 
 
@@ -107,7 +112,7 @@ def random_scenario(rng: random.Random, c: dict) -> dict:
             if x < c['p_idle']:
                 ops.append(['idle', rng.randrange(nb), rng.choice([None, None, None, 0.05, 0.5])])
             elif x < c['p_idle'] + c['p_actor_redisp'] and nd:
-                ops.append(['redisp', rng.randrange(nd), rng.randrange(nb) if rng.random() < 0.0 else -1])
+                ops.append(['redisp', rng.randrange(nd), rng.randrange(nb) if rng.random() < c.get('p_redisp_other', 0.0) else -1])
             elif x < c['p_idle'] + c['p_actor_redisp'] + 0.12 and nd:
                 ops.append(['access' if rng.random() < c.get('p_access', 0.0) else 'await', rng.randrange(nd)])
             elif x < c['p_idle'] + c['p_actor_redisp'] + 0.24:
@@ -116,6 +121,8 @@ def random_scenario(rng: random.Random, c: dict) -> dict:
                 opts = {}
                 if c.get('p_age') and rng.random() < c['p_age']:
                     opts['age'] = rng.choice([0.5, 5.0, 60.0])
+                if rng.random() < c.get('p_rtype', 0.1):
+                    opts['rtype'] = rng.choice(['str', 'int', 'list', 'dict'])
                 ops.append(['disp', rng.randint(0, max(0, c['levels'] - 2)), rng.randrange(nb), 'await' if rng.random() < c['actor_await'] else 'fire', rng.choice(DELAYS), opts])
                 nd += 1
         for k in range(nd):
@@ -558,6 +565,12 @@ def shapes_scenario(rng: random.Random, i: int) -> dict:
     if sc['actors'] and rng.random() < 0.5:
         a = rng.randrange(len(sc['actors']))
         hs.append({'bus': rng.randrange(nb), 'pat': rng.choice([0, 1]), 'kind': 'async', 'prog': [['sleep', rng.choice([0, 0, 0.001, 0.05])], ['await_actor', a, rng.randrange(3)]]})
+    # several handlers of one event returning lists / dicts, then every accessor is called on the completed event
+    if rng.random() < 0.5:
+        b = rng.randrange(nb)
+        for _k in range(rng.randint(2, 3)):
+            hs.append({'bus': b, 'pat': 2, 'kind': rng.choice(['async', 'sync']), 'prog': [['ret', rng.choice([[1, 2], [3], [4, 5, 6], {'a': 1}, {'b': 2}, [7]])]]})
+        sc['actors'].append([['sleep', rng.choice(SHORT)], ['disp', 2, b, 'await', 0, {}], ['access', 0], ['access', 0], ['disp', 2, b, 'fire', 0.05, {}], ['access', 1]])
     # an actor awaiting another actor's events
     na = len(sc['actors'])
     if na > 1 and rng.random() < 0.6:
